@@ -199,10 +199,25 @@ Definition choose_distinct (s : list bytes) (n : nat) (hint : reply) : list byte
 
 (* [n] current members, repetition allowed *)
 Definition choose_repeated (s : list bytes) (n : nat) (hint : reply) : list bytes :=
-  let dflt := match s with [] => [] | x :: _ => repeat x n end in
+  let dflt (_ : unit) := match s with [] => [] | x :: _ => repeat x n end in
   match bulks hint with
-  | Some ms => if subsetb ms s && Nat.eqb (List.length ms) n then ms else dflt
-  | None => dflt
+  | Some ms => if subsetb ms s && Nat.eqb (List.length ms) n then ms else dflt tt
+  | None => dflt tt
+  end.
+
+(* the same test without a canonical answer (and without unary numbers): used where the count
+   is beyond the bound of the repaired code, see [exec_srandmember] *)
+Definition accept_repeated (s : list bytes) (n : Z) (hint : reply) : option (list bytes) :=
+  match bulks hint with
+  | Some ms => if subsetb ms s && (zlength ms =? n) then Some ms else None
+  | None => None
+  end.
+
+(* the observed reply is an error other than WRONGTYPE *)
+Definition refused (hint : reply) : bool :=
+  match hint with
+  | RErr e => negb (bytes_eqb e (B "WRONGTYPE"))
+  | _ => false
   end.
 
 Definition exec_spop (d : db) (args : list bytes) (hint : reply) : reply * db :=
@@ -233,9 +248,12 @@ Definition exec_spop (d : db) (args : list bytes) (hint : reply) : reply * db :=
   | _ => (err_other, d)
   end.
 
-(* SRANDMEMBER with a negative count answers with |count| members; the reply is as long as the
-   client asks, whatever the set holds, so the repaired code refuses counts below this bound
-   (memdb/sets.go: maxRandomRepeat) *)
+(* SRANDMEMBER with a negative count answers with |count| members: the reply is as long as the
+   client asks, whatever the set holds.  The repaired code refuses counts below this bound
+   (memdb/sets_struct.go: maxRandomRepeat) with an error before it looks at the key.  The command
+   reference knows no such bound, so for these counts the model takes either: the refusal when
+   that is what was observed, otherwise exactly what the reference demands (and, when the
+   observation is neither, its own answer is the refusal). *)
 Definition max_random_repeat : Z := 1048576.
 
 Definition exec_srandmember (d : db) (args : list bytes) (hint : reply) : reply * db :=
@@ -254,13 +272,18 @@ Definition exec_srandmember (d : db) (args : list bytes) (hint : reply) : reply 
     match atoi64 c with
     | None => (err_other, d)
     | Some n =>
-      if n <? - max_random_repeat then (err_other, d) else
+      if (n <? - max_random_repeat) && refused hint then (err_other, d) else
       match get_set d k with
       | SMissing => (RArr [], d)
       | SWrong => (err_wrongtype, d)
       | SFound s =>
         if n >=? 0 then
           (RArr (map RBulk (choose_distinct s (Z.to_nat (Z.min n (zlength s))) hint)), d)
+        else if n <? - max_random_repeat then
+          match accept_repeated s (- n) hint with
+          | Some ms => (RArr (map RBulk ms), d)
+          | None => (err_other, d)
+          end
         else
           (RArr (map RBulk (choose_repeated s (Z.to_nat (- n)) hint)), d)
       end
